@@ -35,10 +35,10 @@ ASSUMPTIONS = ["reference semantics of notation in vmon/refmodels/notation.py; w
                "numbers (only the partition into voices is judged) are not judged; kern key mode is not judged",
                "export round trip judged on the multiset (onset, duration, MIDI pitch, staff) of all notes",
                "float32 note-array columns compared with relative tolerance 1e-6"]
-MIN_HOOKS = {"load_mei": {"quick": 300, "thorough": 3000}, "load_kern": {"quick": 300, "thorough": 3000},
-             "load_score": {"quick": 40, "thorough": 100}, "save_mei": {"quick": 50, "thorough": 500},
-             "save_kern": {"quick": 50, "thorough": 500}}
-MIN_NONTRIVIAL = {"quick": 150, "thorough": 1500}
+MIN_HOOKS = {"load_mei": {"quick": 1000, "thorough": 20000}, "load_kern": {"quick": 1000, "thorough": 20000},
+             "load_score": {"quick": 40, "thorough": 200}, "save_mei": {"quick": 150, "thorough": 3000},
+             "save_kern": {"quick": 150, "thorough": 3000}}
+MIN_NONTRIVIAL = {"quick": 500, "thorough": 10000}
 
 FIXTURE_DIR = os.path.join(core.REPO, "tests", "data")
 EXPECT = {}            # absolute file name -> expectation registered by the workload
@@ -447,8 +447,14 @@ def check_part(ctx, exp, sn, d, part):
     if clean:
         ctx.check()
         want = N.sounding(d["notes"])
-        ok, na = ctx.try_call(part.note_array)
-        if ok and na is not None:
+        try:
+            na = ctx.call(part.note_array)
+        except core.PartituraRaised as pr:
+            na = None
+            V(f"raise:{type(pr.exc).__name__}@{pr.where}",
+              f"note_array() of the loaded part raised {type(pr.exc).__name__}: {pr.exc} (divisions {[fq(x) for x in divs]} per "
+              f"quarter, the smallest exact divisions of the document are {o.get('min_divisions')})", traceback=pr.tb[-1000:])
+        if na is not None:
             got = sorted((float(r["onset_quarter"]), float(r["duration_quarter"]), int(r["pitch"])) for r in na)
             # the quarter axis of the note array is shifted when the part starts with a pickup: judge up to a constant
             off = (float(want[0][0]) - got[0][0]) if (want and got) else 0.0
@@ -767,8 +773,8 @@ def fixtures():
 
 
 def plan(tier, seed):
-    n = 24 if tier == "quick" else 260
-    nx = 8 if tier == "quick" else 90
+    n = 72 if tier == "quick" else 1600
+    nx = 24 if tier == "quick" else 540
     items = []
     for i in range(n):
         scale = (0, 1, 1)[i % 3] if tier == "quick" else (0, 1, 2, 4)[i % 4]
